@@ -946,6 +946,8 @@ class C12:
                                 % (where, side, c2["elem"]["len"], c1["elem"]["len"]))
             m1.containers[side]["top"] = c1["top"] + 1.0
 
+        other_model = [None]      # model of the manager that is left alone in the isolation modes (state at the restart)
+
         def finish_other(where):
             nonlocal other
             if other is None:
@@ -957,7 +959,42 @@ class C12:
                     raise Violation(prop + ".isolation", "%s: assignments made to %s changed %s: %s"
                                     % (where, "the restored copy" if mode == "iso_copy" else "the original",
                                        "the original" if mode == "iso_copy" else "the restored copy", d))
+                # both managers live on.  One more assignment to the same location in each of them, first in the one the history
+                # went on with, then in the one that was left alone: the latter still answers from its OWN definitions (those
+                # of the moment of the restart)
+                om = other_model[0]
+                if om is not None and ex.g_restricted:          # (G-acyclic runs: no KF-1 divergence to tell apart)
+                    newreads = []
+                    for p_, a_ in ex.model.defs.items():
+                        if om.defs.get(p_) != a_:
+                            newreads.extend(ex.model.static_reads_of_ast(a_))
+                    cand = [l for l in (newreads + list(spec.leaves)) if not ex.model.is_derived(l) and not om.is_derived(l)]
+                    if cand:
+                        X = cand[0]
+                        v1, v2 = (3, -4) if spec.leaf_type[X] == "i" else (1.25, -2.5)
+                        st = ex.step(("setv", X, v1, "mgr"))
+                        try:
+                            info2 = model_step(om, ("setv", X, v2, "mgr"), ex.g_restricted)
+                        except ModelReject:
+                            info2 = None
+                        if st is not None and st.exc is None and info2 is not None:
+                            tr2, exc2 = run_traced(lambda: w2.apply(("setv", X, v2, "mgr")))
+                            ex.count("assignments_to_the_manager_left_alone")
+                            if isinstance(exc2, SimStall):
+                                raise exc2
+                            if exc2 is not None and not info2.g_cyclic_trig:
+                                raise Violation(prop + ".other_exception", "%s: assigning %s in %s (left alone since the restart) raised %s: %s"
+                                                % (where, path_str(X), "the original" if mode == "iso_copy" else "the restored copy",
+                                                   type(exc2).__name__, exc2))
+                            if exc2 is None and not info2.g_cyclic_trig:
+                                c2 = w2.contents()
+                                for loc in spec.leaves:
+                                    if not same(c2[loc], info2.values[loc]):
+                                        raise Violation(prop + ".other_contents", "%s: after assigning %s in %s (left alone since the restart) %s holds %r, "
+                                                        "its own definitions give %r" % (where, path_str(X), "the original" if mode == "iso_copy" else "the restored copy",
+                                                                                        path_str(loc), c2[loc], info2.values[loc]))
             other = None
+            other_model[0] = None
 
         try:
             for i, op in enumerate(case["ops"]):
@@ -1002,9 +1039,11 @@ class C12:
                     elif mode == "iso_copy":
                         # the history continues on the copy; the original must stay as it is
                         other = ("iso_copy", w, O.snapshot(w))
+                        other_model[0] = ex.model.clone()
                         ex.world = w2
                     else:
                         other = ("iso_orig", w2, O.snapshot(w2))
+                        other_model[0] = ex.model.clone()
                     continue
                 st = ex.step(op)
                 if st is None:
